@@ -57,7 +57,7 @@ def gen_program(rnd):
             for _ in range(rnd.randrange(0, 4)):
                 stmts.extend(filler(rnd, parity_dep))
         files.append(apm.SrcFile(f"f{i}.mac", stmts))
-    kind = rnd.choice(["none", "const", "diff", "diff", "diff2", "viasym", "shiftdiv", "self", "selfnonlin", "second", "dotlead", "dotlead-diff"])
+    kind = rnd.choice(["none", "const", "diff", "diff", "diff2", "viasym", "shiftdiv", "self", "selfnonlin", "second", "dotlead", "dotlead-diff", "aliascoef", "aliascoef"])
     K = rnd.choice([0, 0o1000, 0o2000, 0o40000, 0o100000, 0o400, 0o157000])
     if rnd.random() < 0.15:
         # odd bases: only byte-sized content is meaningful there
@@ -86,6 +86,15 @@ def gen_program(rnd):
     elif kind == "viasym":
         extra_defs.append(apm.assign("span", diff()))
         expr = ("bin", "+", ("sym", "span"), apm.num(K))
+    elif kind == "aliascoef":
+        # labels reached through aliases (possibly assigned before the labels exist), with coefficients other than +1
+        a, b = rnd.sample(labels, 2) if len(labels) >= 2 else (labels[0], labels[0])
+        extra_defs.append(apm.assign("palias", ("bin", "+", ("sym", a), apm.num(rnd.choice([0, 2, 6])))))
+        extra_defs.append(apm.assign("qalias", ("sym", b)))
+        c = rnd.choice([1, 2, 3])
+        expr = ("bin", "-", ("bin", "+", apm.num(K), ("bin", "*", apm.num(c), ("sym", "palias"))), ("bin", "*", apm.num(c), ("sym", "qalias")))
+        if rnd.random() < 0.3:
+            expr = ("bin", "-", ("bin", "+", apm.num(K), ("sym", "palias")), ("sym", "qalias"))
     elif kind == "shiftdiv":
         expr = ("bin", "+", apm.num(K), rnd.choice([("bin", "<<", ("grp", diff()), apm.num(1)), ("bin", "/", ("grp", diff()), apm.num(2)),
                                                     ("bin", "&", ("grp", diff()), apm.num(0o177776))]))
@@ -109,7 +118,7 @@ def gen_program(rnd):
             g.stmts.insert(rnd.randrange(len(g.stmts) + 1), apm.link(apm.num(rnd.choice([K, K + 2, 0o3000]))))
     for d in extra_defs:
         f = rnd.choice(files)
-        f.stmts.insert(rnd.randrange(len(f.stmts) + 1), d)
+        f.stmts.insert(rnd.choice([0, 0, rnd.randrange(len(f.stmts) + 1), len(f.stmts)]), d)
     # skips after the base site (in link order)
     skip_tag = "noskip"
     if kind not in ("none", "self", "selfnonlin", "second") and rnd.random() < 0.5:
@@ -217,7 +226,7 @@ def run_case(case, cnt=None, root=None):
             address_dependent = case["skip"].startswith("skip") or any(
                 (s.k == "simple" and s.d in (".even", ".odd")) or (s.k == "blk" and s.d == ".align") or (s.k == "dot" and not getattr(s, "is_base", False) and s is not prog.files[0].stmts[0])
                 for f in prog.files for s in f.stmts)
-            zero_net = case["kind"] in ("diff", "diff2", "viasym", "shiftdiv", "dotlead-diff")
+            zero_net = case["kind"] in ("diff", "diff2", "viasym", "shiftdiv", "dotlead-diff", "aliascoef")
             if o.cls == "fail" and "recursive-definition" in o.ids("error") and address_dependent and zero_net:
                 if msgs and msgs[0].startswith("valid program not assembled"):
                     v["known_key"] = "link-cancellation"
